@@ -30,7 +30,7 @@ CLAIMED["C06"] = dict(
     level="exploration",
     text="Dynamic half of the property: depth invariants (never below the frame base, exactly one pending operand at EndExpression, same depth at the same instruction on every visited path, flat reapply loops, initial depths restored at End) are evaluated after every step of (A) every ordered pair of operators (38 binary forms, 8 prefix, 3 suffix) around distinct identifiers, at the top level and inside a called expression, under declining / accepting hosts and five value palettes — swept completely on every invocation — and (B) generated control-flow-heavy programs and sampled operator triples whose every condition and arm is a host-resolved identifier, with the host's truth assignments swept (all 2^k for k<=6). The static all-paths abstract interpretation named in the quantifier is a different technique and is not built; path coverage is what the simulated host can steer.",
     design="DESIGN.md §5 C06",
-    note="Trusted: depth observers (public API; Basic's private chains observed on a clone), scripted host. Five recorded findings (D1, D8, D21, D22, D23) are reproduced by explicit scenarios on every run and matched by shape tags computed from the real parse tree (known_findings.json, DESIGN.md §7.2); the generator keeps those shapes out of the random corpus.",
+    note="Trusted: depth observers (public API; Basic's private chains observed on a clone), scripted host. Six recorded findings (D1, D8, D21, D22, D23, D28) are reproduced by explicit scenarios on every run and matched by shape tags computed from the real parse tree (known_findings.json, DESIGN.md §7.2); the generator keeps those shapes out of the random corpus.",
     technique=TECH + ": host-steered path sweep with per-step depth invariants",
 )
 CLAIMED["C07"] = dict(
@@ -50,7 +50,7 @@ CLAIMED["C15"] = dict(
 
 CLAIMED["C08"] = dict(
     level="exploration",
-    text="The defer_op protocol is an interaction with a second party, so it is simulated with a scripted, recording host: (A) the complete instruction x type-pair matrix (40 instructions, 43 representative values of all 20 data types incl. the host's custom type) is swept on every invocation under hosts {absent, declining, accepting, failing, accepting after a nested run} on both implementations — call count, instruction, operand identity and order, unit result, depth, use of the host's value, absent == declining, no call for defined pairs, the unsupported-types code never escaping, the program going on with the next instruction; (B) seeded programs whose identifiers resolve to values of every type are monitored step by step against the same table. The matrix part is exhaustive over its finite table; the program part samples.",
+    text="The defer_op protocol is an interaction with a second party, so it is simulated with a scripted, recording host: (A) the complete instruction x type-pair matrix (40 instructions, 43 representative values of all 20 data types incl. the host's custom type) is swept on every invocation under hosts {absent, declining, accepting, failing, accepting after a nested run, compacting-then-declining (Basic)} on both implementations — call count, instruction, operand identity and order, unit result, depth, use of the host's value, absent == declining, no call for defined pairs, the unsupported-types code never escaping, the program going on with the next instruction, the operands pending beneath left untouched; (B) seeded programs whose identifiers resolve to values of every type are monitored step by step against the same table. The matrix part is exhaustive over its finite table; the program part samples.",
     design="DESIGN.md §5 C08",
     note="Trusted: spec/defined_ops.json (which combinations the language defines: recorded from the pinned runtime, compared by hand with the match arms, two hand corrections), the recording host, the structural reader. What a defined operation returns is not judged.",
     technique=TECH + ": scripted second party (host) with recorded call histories over the full operation matrix and seeded programs",
